@@ -104,7 +104,22 @@ impl Check for C15Check {
                     _ => call,
                 };
                 let at = g.w.below(p.body.len() + 1);
+                if g.w.chance(1, 4) {
+                    // the same goal twice in a row: the builder uses one goal object for both
+                    // invocations, which must still get their own fresh variables
+                    p.body.insert(at, wrapped.clone());
+                }
                 p.body.insert(at, wrapped);
+            }
+            if g.w.chance(1, 4) {
+                // a closure whose body picks a value for a fresh variable, used twice through
+                // the same goal object: the two picks are independent
+                let v = g.fresh_var();
+                let items = g.proper_list(&scope, 3);
+                let pick = G::Closure(vec![G::Fresh(vec![v], vec![G::Call(Rel::Member, vec![T::V(v), items])])]);
+                let at = g.w.below(p.body.len() + 1);
+                p.body.insert(at, pick.clone());
+                p.body.insert(at, pick);
             }
             p
         };
